@@ -86,7 +86,7 @@ PROPS = {
     'C09': dict(fams=['intra', 'versions'], views=['obs', 'shape'], vops={'intra'}, oracles=['unchanged', 'canonical', 'memo'], oops={'intra'},
                 pyref=False, filt=lambda k, o: o == 'intra', twin='intra',
                 key=lambda ops: any(o.startswith('intra') for o in ops)),
-    'C10': dict(fams=['cost', 'crud', 'suffix', 'big', 'versions'], views=['obs', 'ident', 'fresh'], oracles=['cost'], pyref=False,
+    'C10': dict(fams=['cost', 'crud', 'suffix', 'big', 'versions'], views=['obs', 'ident', 'fresh', 'memo'], oracles=['cost'], pyref=False,
                 vops={'clone', 'apply', 'pop_front', 'pop_front_slow', 'push', 'set', 'cow_into', 'cow_make', 'cow_make2', 'cow_read',
                       'touch', 'iter_cow', 'to_vector', 'to_list', 'new_list', 'new_vec', 'list_slow', 'vec_iter', 'repeat',
                       'repeat_slow', 'from_elem', 'empty', 'ssz_list', 'ssz_vec', 'hash', 'get', 'len', 'iter_from', 'level_iter',
@@ -101,7 +101,7 @@ PROPS = {
                 filt=lambda k, o: k == 'R' and o in SERDE_OPS, key=lambda ops: any(o.split()[0] in SERDE_OPS for o in ops)),
     'C14': dict(fams=['crud', 'versions', 'bulk', 'suffix', 'codec'], views=['obs'], oracles=[], pyref=False,
                 filt=lambda k, o: False, key=lambda ops: True, lockstep=True),
-    'C15': dict(fams=['invalid_args', 'bulk', 'capacity', 'deep', 'codec', 'builder', 'crud', 'versions', 'bulk_via'], views=['obs'],
+    'C15': dict(fams=['invalid_args', 'bulk', 'capacity', 'deep', 'codec', 'builder', 'crud', 'versions', 'bulk_via', 'rebase_pairs', 'intra'], views=['obs'],
                 oracles=['wellformed', 'error_preserves'], pyref=True, errors_only=True, filt=lambda k, o: k == 'R',
                 key=lambda ops: True),
     'C16': dict(fams=['par', 'fault'], views=['obs'], oracles=['par'], pyref=True, par_only=True, twin='fault', no_corr=True,
@@ -625,26 +625,34 @@ def violates(prop, text):
                 or twin_findings(prop, [text], impl, 'shrink'))
 
 
-def shrink(prop, text):
+def shrink(prop, text, budget=150):
+    """delta debugging on the operation list, within a wall-clock budget; while shrinking a single small history gets
+    a short watchdog (a candidate that hangs must not cost a minute)"""
+    global HARNESS_TIMEOUT
     lines = text.strip().split('\n')
     cfg, ops = lines[0], [l for l in lines[1:] if not l.startswith('#')]
-    # cut the tail after the failing operation is not needed: try dropping single ops, last to first
-    changed = True
-    rounds = 0
-    while changed and rounds < 4:
-        changed = False
-        rounds += 1
-        i = len(ops) - 1
-        while i >= 0:
-            cand = ops[:i] + ops[i + 1:]
-            t = cfg + '\n' + '\n'.join(cand) + '\n'
-            try:
-                if cand and violates(prop, t):
-                    ops = cand
-                    changed = True
-            except Exception:
-                pass
-            i -= 1
+    saved, HARNESS_TIMEOUT = HARNESS_TIMEOUT, min(HARNESS_TIMEOUT, 8)
+    t0 = time.time()
+    try:
+        # cut the tail after the failing operation is not needed: try dropping single ops, last to first
+        changed = True
+        rounds = 0
+        while changed and rounds < 4 and time.time() - t0 < budget:
+            changed = False
+            rounds += 1
+            i = len(ops) - 1
+            while i >= 0 and time.time() - t0 < budget:
+                cand = ops[:i] + ops[i + 1:]
+                t = cfg + '\n' + '\n'.join(cand) + '\n'
+                try:
+                    if cand and violates(prop, t):
+                        ops = cand
+                        changed = True
+                except Exception:
+                    pass
+                i -= 1
+    finally:
+        HARNESS_TIMEOUT = saved
     return cfg + '\n' + '\n'.join(ops) + '\n'
 
 
